@@ -306,8 +306,9 @@ static bool is_valid_ptr(
     const void* ptr,
     uint64_t ptr_size)  // ptr_size can be 64bit even in 32bit systems.
 {
+  // No addition on the side taken from the file: ptr + ptr_size can wrap.
   return ptr >= base && ptr_size <= size &&
-         ((char*) ptr) + ptr_size <= ((char*) base) + size;
+         (uint64_t) ((const char*) ptr - (const char*) base) <= size - ptr_size;
 }
 
 #define IS_VALID_PTR(base, size, ptr) \
